@@ -33,12 +33,20 @@ func signerOf(k *KeyPair) crypto.Signer {
 }
 
 func issue(r *RNG, subject string, pub crypto.PublicKey, parent *x509.Certificate, parentKey *KeyPair, isCA bool, notAfter time.Time, self bool) []byte {
+	return issueWith(r, subject, pub, parent, parentKey, isCA, notAfter, self, nil)
+}
+
+// issueWith: as issue, with a last word on the template (CA constraints: basic constraints, path length, key usage, extended key usage)
+func issueWith(r *RNG, subject string, pub crypto.PublicKey, parent *x509.Certificate, parentKey *KeyPair, isCA bool, notAfter time.Time, self bool, mod func(*x509.Certificate)) []byte {
 	tmpl := &x509.Certificate{SerialNumber: big.NewInt(int64(r.U64() >> 1)), Subject: pkix.Name{CommonName: subject},
 		NotBefore: time.Now().Add(-48 * time.Hour), NotAfter: notAfter, IsCA: isCA, BasicConstraintsValid: true}
 	if isCA {
 		tmpl.KeyUsage = x509.KeyUsageCertSign
 	} else {
 		tmpl.KeyUsage = x509.KeyUsageDigitalSignature
+	}
+	if mod != nil {
+		mod(tmpl)
 	}
 	p := parent
 	if self {
@@ -119,6 +127,45 @@ func newPKI(r *RNG, depth int, leafExpired bool) *pki {
 	rc, _ := x509.ParseCertificate(p.root)
 	p.pool.AddCert(rc)
 	return p
+}
+
+// constrain re-issues the hierarchy as root -> intermediate -> leaf with one CA constraint violated (or, for "leaf.eku*", a leaf whose
+// extended key usage is restricted); the keys stay the same
+func (p *pki) constrain(r *RNG, dv string) {
+	far := time.Now().Add(1000 * time.Hour)
+	rootMod, interMod, leafMod := func(*x509.Certificate) {}, func(*x509.Certificate) {}, func(*x509.Certificate) {}
+	interCA, interEnd := true, far
+	switch dv {
+	case "ca.intermediateNotCA":
+		interCA = false
+	case "ca.intermediateNoBasicConstraints":
+		interMod = func(t *x509.Certificate) { t.IsCA, t.BasicConstraintsValid, t.KeyUsage = false, false, x509.KeyUsageCertSign }
+	case "ca.pathLenExceeded":
+		rootMod = func(t *x509.Certificate) { t.MaxPathLen, t.MaxPathLenZero = 0, true }
+	case "ca.keyUsageNoCertSign":
+		interMod = func(t *x509.Certificate) { t.KeyUsage = x509.KeyUsageDigitalSignature }
+	case "ca.ekuConstrained":
+		interMod = func(t *x509.Certificate) { t.ExtKeyUsage = []x509.ExtKeyUsage{x509.ExtKeyUsageEmailProtection} }
+	case "ca.expired":
+		interEnd = time.Now().Add(-time.Hour)
+	case "ca.notYetValid":
+		interMod = func(t *x509.Certificate) { t.NotBefore = time.Now().Add(24 * time.Hour) }
+	case "leaf.ekuOther":
+		leafMod = func(t *x509.Certificate) {
+			t.ExtKeyUsage = []x509.ExtKeyUsage{x509.ExtKeyUsageEmailProtection, x509.ExtKeyUsageCodeSigning}
+		}
+	case "leaf.ekuServerAuth":
+		leafMod = func(t *x509.Certificate) { t.ExtKeyUsage = []x509.ExtKeyUsage{x509.ExtKeyUsageServerAuth} }
+	case "ca.ekuAny":
+		interMod = func(t *x509.Certificate) { t.ExtKeyUsage = []x509.ExtKeyUsage{x509.ExtKeyUsageAny} }
+	}
+	p.root = issueWith(r, "verif blob root", p.rootKey.Public(), nil, p.rootKey, true, far, true, rootMod)
+	rootCert, _ := x509.ParseCertificate(p.root)
+	p.inter = issueWith(r, "verif blob intermediate", p.interKey.Public(), rootCert, p.rootKey, interCA, interEnd, false, interMod)
+	interCert, _ := x509.ParseCertificate(p.inter)
+	p.leaf = issueWith(r, "mds leaf", p.leafKey.Public(), interCert, p.interKey, false, far, false, leafMod)
+	p.pool = x509.NewCertPool()
+	p.pool.AddCert(rootCert)
 }
 
 func (p *pki) chain() [][]byte {
@@ -243,7 +290,9 @@ func init() {
 			r := c.R
 			devs := []string{"", "", "payload.altered", "signature.altered", "header.altered", "root.other", "leaf.expired", "chain.reordered", "chain.missing",
 				"signedByNonLeaf", "pool.default", "pool.empty", "pool.nil", "pool.lastWins", "pool.lastWinsBad", "garbage",
-				"default.none", "default.emptyPool", "default.nilPool", "default.otherPool", "default.emptyThenNothing"}
+				"default.none", "default.emptyPool", "default.nilPool", "default.otherPool", "default.emptyThenNothing",
+				"ca.intermediateNotCA", "ca.intermediateNoBasicConstraints", "ca.pathLenExceeded", "ca.keyUsageNoCertSign", "ca.ekuConstrained", "ca.expired",
+				"ca.notYetValid", "leaf.ekuOther", "leaf.ekuServerAuth", "ca.ekuAny"}
 			n := c.N(6, 200)
 			for i := 0; i < n; i++ {
 				for _, dv := range devs {
@@ -254,6 +303,10 @@ func init() {
 							depth = 2
 						}
 						p.underDefaultRoot(r, depth)
+					}
+					if strings.HasPrefix(dv, "ca.") || strings.HasPrefix(dv, "leaf.eku") {
+						depth = 3
+						p.constrain(r, dv)
 					}
 					signKey := p.leafKey
 					if dv == "signedByNonLeaf" {
@@ -293,7 +346,7 @@ func init() {
 					raw := strings.Join(parts, ".")
 					poolRoots := [][]string{{hx(p.root)}}
 					pools := []any{0}
-					expect := dv == ""
+					expect := dv == "" || dv == "leaf.ekuServerAuth" || dv == "ca.ekuAny"
 					switch dv {
 					case "default.none":
 						// no option: the chain ends in the default root
@@ -337,6 +390,9 @@ func init() {
 						pools = []any{0, 1}
 					}
 					op := M{"op": "blob", "raw": hx([]byte(raw)), "pools": pools, "_poolRoots": poolRoots, "_dev": fmt.Sprintf("%s/depth%d", dv, depth), "_expect": expect}
+					if dv == "leaf.ekuOther" {
+						delete(op, "_expect") // what a leaf's extended key usage must allow is not part of the property: model and code are compared, no truth is asserted
+					}
 					executors["blob"](c, "blob.deviations", op)
 				}
 			}
